@@ -10,6 +10,10 @@ import sqlite3
 from vf.ref.printer import Printer, NotPrintable, q, lit
 
 
+class MissingTable(Exception):
+    """A fetch step asks an integration for a table that integration does not have."""
+
+
 class NotInterpretable(Exception):
     pass
 
@@ -137,6 +141,8 @@ class Interp:
         try:
             cur = self.db.execute(sql)
         except sqlite3.Error as e:
+            if str(e).startswith('no such table'):
+                raise MissingTable(f'{e} (asked of {integ}): {sql}')
             raise NotInterpretable(f'fetch query not executable: {e}: {sql}')
         rows = cur.fetchall()
         names = [d[0].lower() for d in cur.description]
